@@ -96,6 +96,17 @@ NOINL void judge_obs(Ctx const& c, std::string const& s, char const* op, Obs con
 
 NOINL void judge_sweep(Ctx const& c, char const* op, std::vector<LL> const& got, Model const& m, std::uint64_t salt) { judge_offsets(op, got, m, vf::mix(c.h, salt)); }
 
+// every offset the mapping produced must lie below the required_span_size() the mapping itself reports
+NOINL void judge_span(Ctx const& c, std::string const& s, char const* op, Obs const& o, std::vector<LL> const& offs)
+{
+    if (!o.has_rss) { return; }
+    LL mx = -1;
+    for (LL v : offs) { mx = v > mx ? v : mx; }
+    crumb_op(c, s, op);
+    cov(c, "max-offset<required_span_size()", 1);
+    if (mx >= o.rss) { vf::diverge("max-offset>=required_span_size()", "offset " + vf::to_s(mx), "< " + vf::to_s(o.rss)); }
+}
+
 template <typename M, bool HasRss, bool HasStride, bool HasExh>
 NOINL void observe(Ctx const& c, std::string const& s, M const& m, Obs& o)
 {
@@ -181,6 +192,7 @@ NOINL void canonical(Ctx& c)
         judge_obs(c, s, "mapping(extents)", o, x, 1);
         sweep<Idx>(c, s, "operator()(index_type...)", m, mod, offs);
         judge_sweep(c, "operator()(index_type...)", offs, mod, 1);
+        judge_span(c, s, "mapping(extents)", o, offs);
         if constexpr (std::is_same_v<L, etl::layout_left>) {
             sweep<int>(c, s, "operator()(int...)", m, mod, offs);
             judge_sweep(c, "operator()(int...)", offs, mod, 2);
@@ -205,7 +217,7 @@ NOINL void canonical(Ctx& c)
         crumb_op(c, s, "mapping(mapping const&)");
         M cp(m);
         cov(c, "mapping(mapping const&)", 1);
-        M as{};
+        M as(make_extents<E>(other_shape(*c.p, c.shape))); // holds different run-time extents before the assignment
         crumb_op(c, s, "operator=(mapping const&)");
         as = m;
         cov(c, "operator=(mapping const&)", 1);
@@ -214,6 +226,8 @@ NOINL void canonical(Ctx& c)
         judge_obs(c, s, "mapping(mapping const&)", o1, x, 3);
         observe<M, true, true, true>(c, s, as, o2);
         judge_obs(c, s, "operator=(mapping const&)", o2, x, 4);
+        sweep<Idx>(c, s, "operator=(mapping const&)", as, mod, offs);
+        judge_sweep(c, "operator()(index_type...)", offs, mod, 4);
         crumb_op(c, s, "operator==");
         vf::eq_bool("operator==:copy", cp == m, true);
         cov(c, "operator==", 1);
@@ -331,6 +345,13 @@ std::vector<Model> stride_models(Ctx& c, std::size_t R)
 }
 
 template <typename E>
+etl::layout_stride::mapping<E> make_strided_from(E const& e, Model const& mod)
+{
+    etl::array<Idx, E::rank()> sa{};
+    for (std::size_t r = 0; r < E::rank(); ++r) { sa[r] = static_cast<Idx>(mod.st[r]); }
+    return etl::layout_stride::mapping<E>(e, sa);
+}
+template <typename E>
 NOINL void strided(Ctx& c)
 {
     constexpr std::size_t R = E::rank();
@@ -352,7 +373,7 @@ NOINL void strided(Ctx& c)
         cov(c, "mapping(extents,array<T,rank>)", n);
         {
             Obs o;
-            observe<M, false, true, false>(c, s, m, o);
+            observe<M, true, true, false>(c, s, m, o);
             o.a_exh = M::is_always_exhaustive();
             judge_obs(c, s, "mapping(extents,array<T,rank>)", o, x, n * 16 + 1);
             crumb_op(c, s, "strides()", ss.c_str());
@@ -361,6 +382,7 @@ NOINL void strided(Ctx& c)
             cov(c, "strides()", n);
             sweep<Idx>(c, s, "operator()(index_type...)", m, mod, offs, ss);
             judge_sweep(c, "operator()(index_type...)", offs, mod, n * 16 + 1);
+            judge_span(c, s, "mapping(extents,array<T,rank>)", o, offs);
         }
         // from a span over an exact-size block, with another stride element type
         if (n <= 2 || !c.enumerated) {
@@ -370,7 +392,7 @@ NOINL void strided(Ctx& c)
             M const m2(e, etl::span<long, R>(sb.data(), R));
             cov(c, "mapping(extents,span<T,rank>)", n);
             Obs o;
-            observe<M, false, true, false>(c, s, m2, o);
+            observe<M, true, true, false>(c, s, m2, o);
             judge_obs(c, s, "mapping(extents,span<T,rank>)", o, x, n * 16 + 2);
             sweep<int>(c, s, "operator()(int...)", m2, mod, offs, ss);
             judge_sweep(c, "operator()(int...)", offs, mod, n * 16 + 2);
@@ -379,14 +401,23 @@ NOINL void strided(Ctx& c)
             crumb_op(c, s, "mapping(mapping const&)", ss.c_str());
             M cp(m2);
             cov(c, "mapping(mapping const&)", n);
-            M as{};
+            // the target of the assignment holds OTHER strides (those of the next stride set) beforehand
+            M as = make_strided_from(e, mods[n % mods.size()]);
             crumb_op(c, s, "operator=(mapping const&)", ss.c_str());
             as = m;
             cov(c, "operator=(mapping const&)", n);
+            sweep<Idx>(c, s, "operator=(mapping const&)", as, mod, offs, ss);
+            judge_sweep(c, "operator()(index_type...)", offs, mod, n * 16 + 4);
+            M mv = make_strided_from(e, mods[n % mods.size()]);
+            crumb_op(c, s, "operator=(mapping&&)", ss.c_str());
+            mv = M(m);
+            cov(c, "operator=(mapping&&)", n);
+            sweep<Idx>(c, s, "operator=(mapping&&)", mv, mod, offs, ss);
+            judge_sweep(c, "operator()(index_type...)", offs, mod, n * 16 + 5);
             Obs o1, o2;
-            observe<M, false, true, false>(c, s, cp, o1);
+            observe<M, true, true, false>(c, s, cp, o1);
             judge_obs(c, s, "mapping(mapping const&)", o1, x, n * 16 + 3);
-            observe<M, false, true, false>(c, s, as, o2);
+            observe<M, true, true, false>(c, s, as, o2);
             judge_obs(c, s, "operator=(mapping const&)", o2, x, n * 16 + 4);
         }
     }
@@ -439,6 +470,7 @@ NOINL void transpose_one(Ctx& c, Model const& nested, typename L::template mappi
     // the model's span is that of the nested mapping (same element set)
     sweep<Idx>(c, s, "operator()(i,j)", m, mod, offs, ss);
     judge_sweep(c, "operator()(i,j)", offs, mod, 1);
+    judge_span(c, s, "mapping(nested_mapping)", o, offs);
     {
         crumb_op(c, s, "nested_mapping()", ss.c_str());
         auto const back = m.nested_mapping();
@@ -492,7 +524,7 @@ NOINL void transposed(Ctx& c)
                 if (++k > 3) { break; }
                 etl::array<Idx, 2> sa{static_cast<Idx>(nested.st[0]), static_cast<Idx>(nested.st[1])};
                 etl::layout_stride::mapping<TE> const nm(te, sa);
-                transpose_one<etl::layout_stride, E, false>(c, nested, nm);
+                transpose_one<etl::layout_stride, E, true>(c, nested, nm);
             }
         }
     }
